@@ -21,6 +21,10 @@ Strs(k) == UNION { [1..j -> Chars] : j \in 0..k }
 ScStr(k) == { Str(f, c, t) : f \in {"byte", "cstr", "asciiz", "embedded", "bytesq"}, c \in Strs(k), t \in {0, 3, 255} }
 ScFill == { Fil("fill", n, v, 0) : n \in 0..3, v \in {0, 1, 255, 256, 263, -1, -256} }
           \cup { Fil("zero", n, 0, 0) : n \in 0..3 }
+          \* counts around powers of two and page sizes: nothing of a long run may be lost
+          \cup { Fil("fill", n, v, 0) : n \in {15, 16, 17, 255, 256, 257, 300, 511, 512, 700, 1000, 1025}, v \in {1, 255} }
+          \cup { Fil("zero", n, 0, 0) : n \in {16, 17, 256, 257, 300, 700, 1025} }
+          \cup { Fil("zuntil", a, 0, c) : a \in {255, 256, 257, 299, 1023, 1024}, c \in {0, 4} }
           \cup { Fil("zuntil", a, 0, c) : a \in 0..9, c \in {0, 4, 7} }
 ScQuick == ScNum1 \cup ScNum2 \cup ScNum3 \cup ScStr(2) \cup ScFill
 ScThorough == ScNum1 \cup ScNum2 \cup ScNum3 \cup ScStr(3) \cup ScFill
